@@ -239,32 +239,89 @@ contains neither `', '` nor `') as '` -/
 theorem simple_iff_text_has_no_separator (nm ln : Nat → String) (t : Ty) :
     t.simple = true ↔ noSep (t.render nm ln) = true := simple_iff_noSep nm ln t
 
-/-- `st[9:].partition(') as ')` and `.split(', ')` (sequence_types.py l.116-119, helpers.split_function_test)
-applied to the text of `function(a) as r` return the texts of the arguments and of the return type **iff**
-every argument is `simple`.  So the AST model of `is_sequence_type_restriction` / `match_function_test` speaks
-about the string-driven code exactly for `Ty.flat` types; for the others (a typed function or map test inside an
-argument list: trigger `¬ a.allSimple`) the code compares other pieces than the grammar says
-(witnesses: `string_split_witnesses`). -/
-theorem string_split_agrees_iff_simple (nm ln : Nat → String) (a : Tys) (r : Ty) (ha : a ≠ .nil) :
-    (pySplit ((Ty.func a r).render nm ln)).1 = a.argTexts nm ln ↔ a.allSimple = true :=
-  pySplit_agrees_iff nm ln a r ha
-
-/-- on simple argument lists the split also returns the text of the return type, whatever it is -/
-theorem string_split_flat (nm ln : Nat → String) (a : Tys) (r : Ty) (h : a.allSimple = true) :
+/-- **`helpers.split_function_test` agrees with the grammar for every typed function test.**  The scan by nesting
+depth (fix-c18-6; `sequence_types.py` l.113-126 and `match_function_test` cut the normalised text with it) applied
+to the text of `function(a) as r` returns the texts of the parameters — none for `function() as r` — and the text
+of the return type, for all parameter lists `a` (typed function tests, map tests, array tests and kind tests with
+type arguments nested to any depth) and all `r`.  So the AST model of `is_sequence_type_restriction` /
+`match_function_test` (`coreCls`, `funcItemTest`) speaks about the string-driven code for every type. -/
+theorem string_split_eq_ast (nm ln : Nat → String) (a : Tys) (r : Ty) :
     pySplit ((Ty.func a r).render nm ln) = (a.argTexts nm ln, r.render nm ln) :=
-  pySplit_flat nm ln a r h
+  pySplit_eq nm ln a r
 
-/-- kernel-checked witnesses outside the region: `function(map(K, V)) as R` (one argument) is cut into two
-argument pieces; `function(function(A) as B, C) as R` (two arguments) is cut at the inner `') as '` into one
-argument piece, and the "return type" starts inside the first argument -/
-theorem string_split_witnesses :
+/-- the number of pieces is the arity -/
+theorem string_split_arity (nm ln : Nat → String) (a : Tys) (r : Ty) :
+    (pySplit ((Ty.func a r).render nm ln)).1.length = a.toList.length := by
+  rw [pySplit_eq, argTexts_length]
+
+/-- the text of a type is balanced: scanned at any depth, behind any prefix, it does not split (the lemma behind
+`string_split_eq_ast`) -/
+theorem text_is_balanced (nm ln : Nat → String) (t : Ty) (d : Nat) (rest cur : List Tok) :
+    splitScan d (t.render nm ln ++ rest) cur = splitScan d rest (cur ++ t.render nm ln) :=
+  scan_render nm ln t d rest cur
+
+/-- the types of `string_split_old_witnesses`, now split as the grammar says: `function(map(K, V)) as R` has one
+parameter, `function(function(A) as B, C) as R` two, `function() as R` none, and the return type is `R` (one token) -/
+example :
     let nm : Nat → String := fun _ => "xs:x"
     let m : Ty := .map 0 (.leaf (.atomic 1) .one) .one
     let f : Ty := .func (.cons (.leaf (.atomic 0) .one) .nil) (.leaf (.atomic 1) .one)
     let r : Ty := .leaf (.atomic 2) .one
-    (pySplit ((Ty.func (.cons m .nil) r).render nm nm)).1.length = 2 ∧
-    (pySplit ((Ty.func (.cons f (.cons r .nil)) r).render nm nm)).1.length = 1 ∧
-    (pySplit ((Ty.func (.cons f (.cons r .nil)) r).render nm nm)).2.length = 5 := by decide
+    (pySplit ((Ty.func (.cons m .nil) r).render nm nm)).1.length = 1 ∧
+    (pySplit ((Ty.func (.cons f (.cons r .nil)) r).render nm nm)).1.length = 2 ∧
+    (pySplit ((Ty.func (.cons f (.cons r .nil)) r).render nm nm)).2.length = 1 ∧
+    (pySplit ((Ty.func .nil r).render nm nm)) = ([], [.atom "xs:x"]) := by decide
+
+/-- the splitting before fix-c18-6 (`st[9:].partition(') as ')`, `.split(', ')`) returned the texts of the
+parameters **iff** every parameter is `simple`: this is the exact region where the pinned tree without the
+`fix:` differs from the grammar (trigger of F18p: `¬ a.allSimple`, or no parameter at all). -/
+theorem string_split_old_agrees_iff_simple (nm ln : Nat → String) (a : Tys) (r : Ty) (ha : a ≠ .nil) :
+    (pySplitOld ((Ty.func a r).render nm ln)).1 = a.argTexts nm ln ↔ a.allSimple = true :=
+  pySplitOld_agrees_iff nm ln a r ha
+
+/-- kernel-checked witnesses of the old splitting outside that region: `function(map(K, V)) as R` (one parameter)
+was cut into two pieces; `function(function(A) as B, C) as R` (two parameters) was cut at the inner `') as '` into
+one piece and the "return type" started inside the first parameter; `function() as R` had one (empty) piece -/
+theorem string_split_old_witnesses :
+    let nm : Nat → String := fun _ => "xs:x"
+    let m : Ty := .map 0 (.leaf (.atomic 1) .one) .one
+    let f : Ty := .func (.cons (.leaf (.atomic 0) .one) .nil) (.leaf (.atomic 1) .one)
+    let r : Ty := .leaf (.atomic 2) .one
+    (pySplitOld ((Ty.func (.cons m .nil) r).render nm nm)).1.length = 2 ∧
+    (pySplitOld ((Ty.func (.cons f (.cons r .nil)) r).render nm nm)).1.length = 1 ∧
+    (pySplitOld ((Ty.func (.cons f (.cons r .nil)) r).render nm nm)).2.length = 5 ∧
+    (pySplitOld ((Ty.func .nil r).render nm nm)).1 = [[]] := by decide
+
+/-! ## a typed function test with an occurrence indicator of its own -/
+
+/-- `v instance of (function(a) as r)o` (parenthesised item type, the indicator `o` is the function test's own): true
+exactly when the number of items fits `o` and every single item is an instance of the plain `function(a) as r` — for
+every indicator, parameter list, return type and value. -/
+theorem own_occurrence_instance_of (tb : Tables) (xsd11 : Bool) (o : Occ) (a : Tys) (r : Ty) (v : List Item) :
+    instanceOfOwnOcc tb xsd11 o a r v = .ok true ↔
+      (cardOK o v.length = true ∧ ∀ x ∈ v, instanceOf tb xsd11 (.func a r) [x] = .ok true) := by
+  have h1 : ∀ x : Item, instanceOf tb xsd11 (.func a r) [x] = .ok true ↔ instItem tb xsd11 (.func a r) x = .ok true := by
+    intro x
+    have := instLoop_true (Ty.func a r).tokOcc (instItem tb xsd11 (.func a r)) [x]
+    simp only [instanceOf]
+    rw [this]
+    simp [Ty.tokOcc, Ty.ownOcc, cardOK]
+  simp only [instanceOfOwnOcc, instLoop_true, h1]
+
+/-- with the indicator `one` (no indicator) the parentheses change nothing -/
+theorem own_occurrence_one (tb : Tables) (xsd11 : Bool) (a : Tys) (r : Ty) (v : List Item) :
+    instanceOfOwnOcc tb xsd11 .one a r v = instanceOf tb xsd11 (.func a r) v ∧
+    treatAsOwnOcc tb xsd11 .one a r v = treatAs tb xsd11 (.func a r) v := ⟨rfl, rfl⟩
+
+/-- `treat as` with an own indicator is the same judgement: the operand unchanged or XPDY0050 -/
+theorem own_occurrence_treat_as (tb : Tables) (xsd11 : Bool) (o : Occ) (a : Tys) (r : Ty) (v : List Item) :
+    treatAsOwnOcc tb xsd11 o a r v =
+      (match instanceOfOwnOcc tb xsd11 o a r v with
+       | .ok true => .ok v
+       | .ok false => .error .XPDY0050
+       | .error e => .error e) := by
+  simp only [treatAsOwnOcc, instanceOfOwnOcc, treatLoop_eq, List.nil_append]
+  rfl
 
 /-! ## partial application and judgement histories -/
 
